@@ -1021,7 +1021,9 @@ def run(ctx):
         trusted=["numpy/scipy kernels used by the anchored code (dot, linalg.inv, linalg.det, log, mean, "
                  "random.multivariate_normal): the model uses exact rational arithmetic and a Gauss-Jordan inverse "
                  "instead; agreement is checked to rtol 1e-7",
-                 "positive-definiteness of the innovation covariance is checked numerically only (eigvalsh)"],
+                 "positive-definiteness of the innovation covariance: proved (C11_sigma_positive_definite) from "
+                 "positive-definiteness of the block-Toeplitz matrix of the lags; on the implementation's output it is "
+                 "checked numerically (eigvalsh) as part of the search"],
         assumptions=["covariance sequences are well conditioned (block-Toeplitz min eigenvalue > 2e-3 after scaling to "
                      "max 1): the theorems assume every inverted error covariance is invertible",
                      "real data only (the helper's .conj() is the identity)"])
